@@ -516,6 +516,44 @@ Definition step (fixed : bool) (g : config) (t : nat) : option config :=
     end
   end.
 
+(* ---------------------------------------------------------------- a third variant (seeded mutation) *)
+(* "Early unlock": Fulfill locks the first hook of the target chain while still holding cp.h.mu,
+   then releases cp.h.mu at once and walks on with resolveHook (which unlocks each hook before
+   it locks the next).  Same as [step true] except in Fulfill's transfer walk: the step that
+   acquires a hook also releases cp.h.mu if this thread still holds it, and the end of the walk
+   does not touch cp.h.mu.  Refuted in Cap/CapRefuted.v (the target of a chain of two promises
+   is shut down while referenced). *)
+Definition unlock_if_mine (p t : nat) (g : config) : config :=
+  match get_hook g p with
+  | Some hk => if oeqb (h_mu hk) (Some t) then uh p (hk_mu None) g else g
+  | None => g
+  end.
+
+Definition step_early (g : config) (t : nat) : option config :=
+  match nth_error (threads g) t with
+  | Some th =>
+      match t_pc th with
+      | FWalk p _ _ _ =>
+          match step false g t with          (* enabled iff the hook to be locked is free *)
+          | None => None
+          | Some _ => step false (unlock_if_mine p t g) t
+          end
+      | _ => step true g t
+      end
+  | None => None
+  end.
+
+(* runs and reachability for an arbitrary step function *)
+Fixpoint run_with (stp : config -> nat -> option config) (g : config) (sched : list nat) : option config :=
+  match sched with
+  | [] => Some g
+  | t :: r => match stp g t with None => None | Some g' => run_with stp g' r end
+  end.
+
+Inductive reachable_with (stp : config -> nat -> option config) (g0 : config) : config -> Prop :=
+| reachw_refl : reachable_with stp g0 g0
+| reachw_step : forall g t g', reachable_with stp g0 g -> stp g t = Some g' -> reachable_with stp g0 g'.
+
 (* ---------------------------------------------------------------- runs *)
 Definition init (progs : list (list op)) : config :=
   mkConfig [] [] [] [] [] [] (map (fun p => mkThread p Idle []) progs) [] false.
